@@ -10,7 +10,7 @@
    waits for process-wide quiescence: a call that has not returned then is parked for good). Not modelled:
    Go scheduler fairness, net.Conn deadlines (a Write blocked on a silent peer ends only with the connection). *)
 From Coq Require Import NArith List Bool.
-From LLRP Require Import Client.Types Client.Model Client.ModelX Client.InvC08 Client.InvC09 Client.C09Proofs Client.Handoff Client.C09Flood Client.C09Api.
+From LLRP Require Import Client.Types Client.Model Client.ModelX Client.InvC08 Client.InvC09 Client.C09Proofs Client.Handoff Client.C09Flood Client.C09Api Client.C09CloseResp.
 Import ListNotations.
 Open Scope N_scope.
 
@@ -255,4 +255,42 @@ Example C09_example :
   phase s = PReturned CErrClosed /\ close_calls s = [true; false] /\
   caller_result s 2 = Some RErrCtx /\ length (delivered s) = 2%nat /\
   map (fun o => f_typ (o_frame o)) (out s) = [2; 3; T_CloseConnection] /\ writer s = WExit.
+Proof. vm_compute. repeat split; reflexivity. Qed.
+
+(* ---- an unsolicited CloseConnectionResponse (round-5 addendum; Client/C09CloseResp.v) ----
+   handleIncoming takes the end of the stream for the orderly end of a session (and waits for <-c.done instead of
+   reporting a failure) only after a CloseConnectionResponse that answers a CloseConnection THIS client wrote.
+   Over every run, today's and the fixed Connect, whatever the reader sends — CloseConnectionResponse frames with
+   any message id, any number of them, anywhere in the session: receivedClosed implies that the write loop has had a
+   CloseConnection in its hand ... *)
+Theorem C09_close_response_counts_only_after_close_connection : forall w cfg evs,
+  let s := xrun w cfg evs in saw_close s = true -> close_sent s = true.
+Proof. exact close_response_counts_only_after_close_connection. Qed.
+Print Assumptions C09_close_response_counts_only_after_close_connection.
+
+(* ... so on a client that has not sent CloseConnection the end of the stream — at a frame boundary, inside a header,
+   inside the payload of any frame — ends the read loop with a read error: the failure Connect reports
+   (C09_loop_error_first in the final select, C09_connect_watching_returns while negotiating), which closes the client
+   and releases every caller (C09_no_caller_stuck). *)
+Theorem C09_unsolicited_close_response_then_eof_fails : forall w cfg evs p,
+  let s := xrun w cfg evs in
+  close_sent s = false -> reader s = RRead ->
+  let s' := xstep w cfg s (PeerEOF p) in
+  reader s' = RDead /\ errs s' = errs s ++ [ERead].
+Proof. exact unsolicited_close_response_then_eof_fails. Qed.
+Print Assumptions C09_unsolicited_close_response_then_eof_fails.
+
+(* non-vacuity: a served 1.0.1 connection with a request in flight (message id 0); the reader sends CloseConnectionResponse
+   frames with id 0 (handed to that caller as its reply), with the next id and with 2^32-1 (nobody waits: dropped), then
+   hangs up: the read loop dies, Connect takes the error, closes the client and returns the read failure *)
+Definition ccr (id : N) : frame := mkFrame 1 T_CloseConnectionResponse id 8 9 (IStatus 0).
+Definition unsolicited_session : list event :=
+  [ConnStart; ConnFirst ren1 HBNone; ConnReady; RCheck;
+   Submit 1 (rq 2 5 101); PassGate 1; WDefault; WAccept 1; WWriteHdr; WWritePay;
+   RFrame (ccr 0) HBNone; RCheck; RFrame (ccr 1) HBNone; RCheck; RFrame (ccr 4294967295) HBNone; RCheck;
+   PeerEOF EofBoundary; ConnSelect true; SeeClosed 1; WSeeDone; ConnReturn].
+Example C09_example_unsolicited_close_response :
+  let s := xrun false cfg10 unsolicited_session in
+  close_sent s = false /\ saw_close s = false /\ length (peer_sent s) = 4%nat /\
+  phase s = PReturned (CErrLoop ERead) /\ closed s = true /\ caller_result s 1 = Some (ROk 1%nat (ccr 0)).
 Proof. vm_compute. repeat split; reflexivity. Qed.
